@@ -1519,6 +1519,164 @@ fn unicode_text(r: &mut Rng) -> String {
     s
 }
 
+/// Every reserved word the parser knows, read from the `FromStr` table of
+/// yash-syntax/src/parser/lex/keyword.rs of the repository under test (so a
+/// reserved word added there is covered without touching this file); the
+/// list below is only the fallback when the source is not readable.
+fn reserved_words() -> Vec<String> {
+    let repo = std::env::var("YV_REPO").unwrap_or_else(|_| "/repo".to_string());
+    let path = format!("{repo}/yash-syntax/src/parser/lex/keyword.rs");
+    let mut v: Vec<String> = vec![];
+    if let Ok(text) = std::fs::read_to_string(&path) {
+        for line in text.lines() {
+            let l = line.trim();
+            // `"word" => Ok(Variant),` and `Variant => "word",`
+            if let Some(rest) = l.strip_prefix('"') {
+                if let Some(end) = rest.find('"') {
+                    if rest[end + 1..].trim_start().starts_with("=> Ok(") {
+                        v.push(rest[..end].to_string());
+                    }
+                }
+            } else if let Some(pos) = l.find("=> \"") {
+                let rest = &l[pos + 4..];
+                if let Some(end) = rest.find('"') {
+                    v.push(rest[..end].to_string());
+                }
+            }
+        }
+    }
+    for k in [
+        "!", "[[", "]]", "case", "do", "done", "elif", "else", "esac", "fi", "for", "function", "if", "in",
+        "namespace", "select", "then", "until", "while", "{", "}",
+    ] {
+        v.push(k.to_string());
+    }
+    // only what the parser itself takes for a reserved word
+    v.retain(|k| k.parse::<yash_syntax::parser::lex::Keyword>().is_ok());
+    v.sort();
+    v.dedup();
+    v
+}
+
+/// Reserved words at the places where being a reserved word matters.
+fn keyword_texts() -> Vec<String> {
+    let mut out = vec![];
+    for k in reserved_words() {
+        // a command name after a redirection or an assignment
+        for t in [
+            "<input @ arg", ">x @", "2>f @ a b", "<f @ >g", "<f >g @ x", ">x @ >y\\", "a=1 @ b", "a=1 <f @",
+            "<f @; echo", "<f @ | cat", "{ <f @; }", "(<f @)", "if <f @; then :; fi",
+            // not a reserved word: quoted, not the first word, a prefix or suffix of a word
+            "echo @", "echo @ @", "\\@", "'@' a", "\"@\"", "@x a", "x@ a", "echo x; echo @",
+            // the first pattern of a case item, with and without the parenthesis
+            "case $x in @) echo a;; esac", "case x in @|x) :;; esac", "case x in x|@) :;; esac",
+            "case @ in (@) ;; esac", "case x in (@|y) :;& @) :;| *) esac", "case x in\n@) :\nesac",
+            "case x in @ ) :;; esac",
+            // names
+            "for @ in @; do :; done", "@() { :; }", "@ () { :; }", "function @ { :; }", "@=1", "a=@ @",
+            // alone and at the end of the text
+            "@", "@ ", "@;", "@\n", "! @", "@ @",
+        ] {
+            out.push(t.replace('@', &k));
+        }
+    }
+    out
+}
+
+/// Texts made of multi-character openers, closers and operators: a line
+/// continuation is inserted at every offset of each.
+const LC_BASES: &[&str] = &[
+    "echo $'a\\tb'", "echo $'a' $'' x$'\\x41'y", "echo ${x}", "echo ${#x}", "echo ${x:-y}", "echo ${x##y}",
+    "echo ${x%%y}", "echo ${x:+${y}}", "echo ${#}", "echo ${10}", "echo $(x)", "echo $(x; y)", "echo $((1))",
+    "echo $((1+(2)))", "echo $(( (1) ))", "echo $( (x) )", "echo $x$y", "echo $1a", "echo $?x", "echo \"$x ${y} $(z) $((1))\"",
+    "echo \"a\\\"b\"", "a && b", "a || b", "a & b", "a | b", "a; b", "a;b", "! a", "! a | b && ! c",
+    "case x in a) b;; c) d;& e) f;| g) h;;& i) esac", "case x in (a|b) ;; esac",
+    "echo >f", "echo >>f", "echo >|f", "echo >>|f", "echo <>f", "echo <&2", "echo >&2", "echo 2>f", "echo 12>>f",
+    "echo <<<w", "echo 3<<<w x", "a=1", "a=1 b=2 c", "a=(1 2)", "a=~/x:~y", "echo ~a/b", "f() { :; }", "f () ( : )",
+    "if a; then b; elif c; then d; else e; fi", "while a; do b; done", "until a; do b; done",
+    "for i in a b; do c; done", "for i do c; done", "{ a; }", "(a)", "( a; b ) >f", "{ a; } 2>&1",
+    "function f { :; }", "echo a\\ b", "echo a\\\\b", "echo {a,b}", "echo [[ a ]]", "export a=~/b c=~d",
+    "echo 'a b' c", "echo a 'b'", "x='a'\"b\"$'c'", "echo \"a\"'b'", ">x a=~b\\", ">y if >x\\",
+];
+
+/// For a text, which character offsets are certainly outside quotes, comments,
+/// backquotes and here-documents and not directly after a backslash: there an
+/// inserted line continuation must not change the tree.  Conservative: after a
+/// `#`, a backquote or `<<` nothing is certain any more.
+fn lc_plain_offsets(base: &str, has_cs: bool) -> Vec<bool> {
+    let cs: Vec<char> = base.chars().collect();
+    let n = cs.len();
+    let mut plain = vec![false; n + 1];
+    let mut i = 0;
+    let mut certain = true;
+    // nesting of double quotes is not tracked through `$(`: give up there
+    let mut in_dq = false;
+    // the last character that was not part of a line continuation
+    let mut prev: Option<char> = None;
+    plain[0] = true;
+    while i < n && certain {
+        let c = cs[i];
+        match c {
+            '\\' => {
+                // the offset after the backslash is not plain; the escaped character is skipped
+                if i + 1 < n {
+                    if cs[i + 1] != '\n' {
+                        prev = Some('a');
+                    }
+                    i += 2;
+                    plain[i] = true;
+                } else {
+                    i += 1;
+                }
+                continue;
+            }
+            '\'' if !in_dq => {
+                // `$'...'` or '...'
+                let dollar = prev == Some('$');
+                let mut j = i + 1;
+                while j < n && cs[j] != '\'' {
+                    if dollar && cs[j] == '\\' {
+                        j += 1;
+                    }
+                    j += 1;
+                }
+                if j >= n {
+                    certain = false;
+                    break;
+                }
+                i = j + 1;
+                plain[i] = true;
+                prev = Some('a');
+                continue;
+            }
+            '"' => in_dq = !in_dq,
+            '#' | '`' => {
+                certain = false;
+                break;
+            }
+            '<' if i + 1 < n && cs[i + 1] == '<' => {
+                certain = false;
+                break;
+            }
+            '(' if has_cs && prev == Some('$') => {
+                // the content of a command substitution is kept as written
+                certain = false;
+                break;
+            }
+            '$' if in_dq && i + 1 < n && (cs[i + 1] == '(' || cs[i + 1] == '{' || cs[i + 1] == '\\') => {
+                // quotes nest differently inside: give up
+                certain = false;
+                break;
+            }
+            _ => {}
+        }
+        prev = Some(c);
+        i += 1;
+        plain[i] = true;
+    }
+    plain
+}
+
 /// The scripts embedded in yash-cli/tests/scripted_test/*.sh, one per test case.
 fn scripted_tests() -> Vec<(String, String)> {
     let repo = std::env::var("YV_REPO").unwrap_or_else(|_| "/repo".into());
@@ -1750,7 +1908,28 @@ struct Emitter {
 
 impl Emitter {
     fn emit(&mut self, stream: &str, label: &str, src: &str) {
+        self.emit_full(stream, label, src, None);
+    }
+
+    /// The first parse of a text, reduced to what two texts are compared by.
+    fn first_of(&mut self, src: &str) -> Option<String> {
+        match self.runner.run(src).first {
+            Parsed::Tree { term_bodies, .. } => Some(term_bodies),
+            Parsed::Err(_) => Some(String::new()),
+            _ => None,
+        }
+    }
+
+    /// [same_as]: the text is another text with a line continuation inserted
+    /// outside quotes; the first parse of that other text (tree or "" for a
+    /// syntax error) must be the same.
+    fn emit_full(&mut self, stream: &str, label: &str, src: &str, same_as: Option<&str>) {
         let o = self.runner.run(src);
+        let lc_diff = match (same_as, &o.first) {
+            (Some(t0), Parsed::Tree { term_bodies, .. }) => t0 != term_bodies,
+            (Some(t0), Parsed::Err(_)) => !t0.is_empty(),
+            _ => false,
+        };
         let w = &mut self.w;
         w.count(&format!("stream:{stream}"));
         w.count(&format!("{stream}:first:{}", first_kind(&o.first)));
@@ -1785,13 +1964,12 @@ impl Emitter {
         }
         let dom = in_model_domain(src);
         w.count(if dom { "model-domain:inside" } else { "model-domain:outside (here-document operator possible)" });
-        let term = format!(
-            "(mkCase {} {} {} {})",
-            cstr(src),
-            coq::b(dom),
-            coq_parsed(&o.first, false),
-            second
-        );
+        let term = if lc_diff {
+            w.count("line-continuation:changed-the-tree");
+            format!("(mkCase {} {} PLcDiff SNone)", cstr(src), coq::b(dom))
+        } else {
+            format!("(mkCase {} {} {} {})", cstr(src), coq::b(dom), coq_parsed(&o.first, false), second)
+        };
         let detail = match &o.first {
             Parsed::Tree { printed, .. } => format!(
                 "\"printed\":{},\"reparse\":{}",
@@ -1816,12 +1994,17 @@ impl Emitter {
             Parsed::ReadAhead(n) => format!("\"lines_requested\":{n}"),
         };
         let json = format!(
-            "{{\"stream\":{},\"label\":{},\"src\":{},\"result\":{},{}}}",
+            "{{\"stream\":{},\"label\":{},\"src\":{},\"result\":{},{}{}}}",
             json_str(stream),
             json_str(label),
             json_str(src),
             json_str(first_kind(&o.first)),
-            detail
+            detail,
+            if lc_diff {
+                ",\"line_continuation\":\"the same text without the inserted backslash-newline parses differently\""
+            } else {
+                ""
+            }
         );
         let key = match &o.first {
             Parsed::Tree { printed, .. } if !printed.is_empty() => Some(src.to_string()),
@@ -1968,7 +2151,59 @@ fn main() {
         }
     }
 
-    // 7. thorough: every text up to length 3 over the special characters
+    // 7. every reserved word of the parser at the places where being one matters
+    let kw_texts = keyword_texts();
+    e.w.count(&format!("reserved-words-found:{}", reserved_words().len()));
+    for (k, src) in kw_texts.iter().enumerate() {
+        e.emit("keywords", &format!("keywords#{k}"), src);
+    }
+
+    // 8. a line continuation inserted at every offset: of the texts made of
+    //    multi-character openers and operators (always), of the corpus and of the
+    //    reserved-word texts (a sample in the quick tier).  Round trip always;
+    //    outside quotes the tree must be the one of the text without it.
+    {
+        let mut lr = rng.fork(6);
+        let mut bases: Vec<(String, bool)> = LC_BASES.iter().map(|b| (b.to_string(), true)).collect();
+        for b in CORPUS.iter() {
+            bases.push((b.to_string(), false));
+        }
+        for b in kw_texts.iter() {
+            bases.push((b.clone(), false));
+        }
+        let mut k = 0usize;
+        for (base, always) in bases.iter() {
+            let cs: Vec<char> = base.chars().collect();
+            if cs.len() > 80 {
+                continue;
+            }
+            let first0 = e.first_of(base);
+            let has_cs = first0.as_deref().map_or(true, |t| t.contains("CommandSubst"));
+            let plain = lc_plain_offsets(base, has_cs);
+            let mut first: Option<Option<String>> = Some(first0);
+            for off in 0..=cs.len() {
+                if !*always && !args.thorough() && !lr.chance(1, 12) {
+                    continue;
+                }
+                let mut t: String = cs[..off].iter().collect();
+                t.push_str("\\\n");
+                t.extend(cs[off..].iter());
+                let same_as = if plain[off] {
+                    if first.is_none() {
+                        first = Some(e.first_of(base));
+                    }
+                    first.clone().unwrap()
+                } else {
+                    None
+                };
+                e.w.count(if plain[off] { "line-continuation:outside-quotes" } else { "line-continuation:elsewhere" });
+                e.emit_full("line-continuation", &format!("lc#{k}@{off}"), &t, same_as.as_deref());
+                k += 1;
+            }
+        }
+    }
+
+    // 9. thorough: every text up to length 3 over the special characters
     if args.thorough() {
         const A: &[char] = &['a', '$', '{', '}', '(', ')', '\'', '"', '`', '\\', '\n', ' ', ';', '#', '<', '-', '~', '='];
         let mut k = 0;
@@ -2005,7 +2240,9 @@ fn main() {
         "source texts: hand corpus, grammar-generated programs (all constructs, surface variation), \
          the repository's scripted-test scripts, mutations, character soup, characters of every class \
          (ASCII and non-ASCII digits, letters, blanks, combining marks) at the positions where the lexer \
-         tests a character class, (thorough) all texts of length <= 3 over 18 special characters; non-trivial = the implementation parsed the text to a \
+         tests a character class, every reserved word of keyword.rs as a command name after a \
+         redirection / as a case pattern / as a name, a line continuation inserted at every offset \
+         of the texts made of multi-character operators and of the corpus, (thorough) all texts of length <= 3 over 18 special characters; non-trivial = the implementation parsed the text to a \
          non-empty tree (so the round trip was exercised); distinct = by source text",
     );
 }
